@@ -406,6 +406,26 @@ def answer (ws : List String) : String :=
         if showObs p != showObs o then "diff arm=" ++ arm ++ " model=" ++ (showObs p).replace " " ";"
         else "ok arm=" ++ arm ++ (if o.res.all (· != "ok") then " trivial" else "")
 
+def rlibAnswer (ws : List String) : String :=
+  match splitArrow ws with
+  | none => "bad-case"
+  | some (pre, post) =>
+    match kvOf pre "id", kvOf pre "key", kvOf pre "addr", kvOf post "res" with
+    | some idT, some keyT, some addr, some res =>
+      let g := fun k => (kvOf post k).getD "?"
+      let arm := "rlib-" ++ idT ++ "-" ++ keyT ++ "-" ++ addr ++ "-" ++ res
+      let failed := (rlibClauses idT keyT res (g "sid") (g "skey") (g "valid" == "1") (g "saved") (g "rres")).filter (fun c => !c.2)
+      if !failed.isEmpty then "propfail " ++ ",".intercalate (failed.map (·.1)) ++ " arm=" ++ arm
+      else match parseId idT, parseKey keyT with
+        | some i, some k =>
+          let exp := match restLoad i k (addr == "1") with
+            | none => "res=err;sid=-;skey=-"
+            | some s => "res=ok;sid=" ++ showIdx s.id ++ ";skey=" ++ showIdx s.key
+          if exp != "res=" ++ res ++ ";sid=" ++ g "sid" ++ ";skey=" ++ g "skey" then "diff arm=" ++ arm ++ " model=" ++ exp
+          else "ok arm=" ++ arm
+        | _, _ => "bad-case"
+    | _, _, _, _ => "bad-case"
+
 end Ident
 
 namespace Disp
@@ -514,6 +534,7 @@ def mgrAnswer (ws : List String) : String :=
 def answer (ws : List String) : String :=
   if ws.head? == some "ident" then Ident.answer (ws.drop 1) else
   if ws.head? == some "disp" then Disp.answer (ws.drop 1) else
+  if ws.head? == some "rlib" then Ident.rlibAnswer (ws.drop 1) else
   if ws.head? == some "sind" then Util.sindAnswer (ws.drop 1) else
   if ws.head? == some "pdur" then Util.pdurAnswer (ws.drop 1) else
   if ws.head? == some "mgr" then mgrAnswer (ws.drop 1) else
